@@ -226,17 +226,39 @@ def oracle(tier, seed):
         import re as _re
         N.fresh()
         ice = Species("#CO")
-        ice.binding_energy, ice.photon_yield = 1300.0, 0.02
+        ice.binding_energy, ice.photon_yield = 3874.25, 0.02
         N.fresh()
         ice2 = Species("#CO")
-        ice2.binding_energy = 1300.0
+        ice2.binding_energy = 3874.25
         net = Network([Reaction([ice2], [Species("CO")], alpha=1.0, reaction_type=RT.GRAIN_DESORB_THERMAL), Reaction([Species("CO")], [Species("#CO")], alpha=1.0, reaction_type=RT.GRAIN_FREEZE)], grain_model="hh93")
         files = render(net, "cvode", "dense", "cpu", jac_pattern=False)
         cases += 1
         m = _re.search(r"eb_\w*CO\w*\s*=\s*([-+0-9.eE]+)\s*;", strip_comments(files.get("src/naunet_constants.cpp", "")))
-        if not m or abs(float(m.group(1)) - 1300.0) > 1e-9:
-            viol.append({"property": "C11", "case": "hh93/thermal", "stage": "species-object-with-own-values", "what": f"constant: the rendered binding-energy constant of #CO is {m.group(1) if m else 'missing'}, the species object carries 1300.0",
+        if not m or float(m.group(1)) != 3874.25:
+            viol.append({"property": "C11", "case": "hh93/thermal", "stage": "species-object-with-own-values", "what": f"constant: the rendered binding-energy constant of #CO is {m.group(1) if m else 'missing'}, the species object carries 3874.25",
                          "signature": "C11:hh93/thermal:species-object-with-own-values:constant"})
+        # every rendered binding-energy constant is the value in force for its species: a user value with many significant digits, or
+        # the literature value (RATE12 table read independently above)
+        for gm in ("hh93", "rr07x"):
+            N.fresh()
+            user = {"#H2O": 5773.5, "#NH3": 10987.0, "#CH4": 1090.125}
+            chemistrydata.update_binding_energy(dict(user))
+            rs = [Reaction([Species(g)], [Species("#" + g)], alpha=1.0, reaction_type=RT.GRAIN_FREEZE) for g in ("H2O", "NH3", "CH4", "CO", "CO2", "HCN")] + \
+                 [Reaction([Species("#" + g)], [Species(g)], alpha=1.0, reaction_type=RT.GRAIN_DESORB_THERMAL) for g in ("H2O", "NH3", "CH4", "CO", "CO2", "HCN")]
+            net = Network(rs, grain_model=gm)
+            files = render(net, "cvode", "dense", "cpu", jac_pattern=False)
+            ctext = strip_comments(files.get("src/naunet_constants.cpp", ""))
+            for sp in net.species:
+                if not sp.is_surface:
+                    continue
+                cases += 1
+                want_eb = user.get(sp.name, T12.get(sp.name[1:]))
+                m = _re.search(rf"\beb_{_re.escape(sp.alias)}\s*=\s*([-+0-9.eE]+)\s*;", ctext)
+                if want_eb is None:
+                    continue
+                if not m or float(m.group(1)) != float(want_eb):
+                    viol.append({"property": "C11", "case": f"{gm}/constants", "stage": "user-table-many-digits", "what": f"constant: rendered eb_{sp.alias} = {m.group(1) if m else 'missing'}, the value in force for {sp.name} is {want_eb}",
+                                 "signature": f"C11:{gm}/constants:eb-constant"})
     except Exception as e:
         viol.append({"property": "C11", "case": "api-species-objects", "stage": "species-object-with-own-values", "what": f"raises: {type(e).__name__}: {e}", "signature": "C11:api-species-objects:raises"})
     N.fresh()
